@@ -47,6 +47,10 @@ def build(inst, node_cls=None):
             if kw.get(k) is not None:
                 kw[k] = tuple(kw[k])
         return fixtures.fanout_graph(supergraph=mode, **kw)
+    if kind == "sink":
+        if kw.get("rates") is not None:
+            kw["rates"] = tuple(kw["rates"])
+        return fixtures.sink_graph(supergraph=mode, **kw)
     if kind == "random":
         return fixtures.random_graph(supergraph=mode, **kw)
     if kind == "hetero":
